@@ -165,20 +165,89 @@ def rule_newlines(ck: Check, repo: Repo) -> None:
     if [ast.unparse(c.args[0]) for c in w] not in (["output"], ["bom + output"]) and \
             [_deep(fn, c.args[0]) for c in w] not in ([_deep(fn, "output")], [_deep(fn, "bom + output")]):
         r.violation(q, "written text", f"{[ast.unparse(c) for c in w]}", repo.loc(fn))
+    kind, problems, facts = detect_model(repo)
+    r.instance("detect_line_endings", {"kind": kind, **facts})
     dl = repo.func("reuse.extract.detect_line_endings")
+    for what, detail in problems:
+        r.violation("reuse.extract.detect_line_endings", what, detail, repo.loc(dl))
 
-    class H(Hooks):
-        def atom(self, text, node, it):
-            if text == "any(line_ending in text for line_ending in ['\\r\\n', '\\r', '\\n'])":
-                return "has_ending"
-            return None
 
-    src = re.sub(r"\s+", " ", ast.unparse(dl))
-    ok = "line_endings = ['\\r\\n', '\\r', '\\n'] for line_ending in line_endings: if line_ending in text: return line_ending return os.linesep" in src
-    r.instance("detect_line_endings", {"crlf_before_cr_before_lf": ok})
-    if not ok:
-        r.violation("reuse.extract.detect_line_endings", "detection order", "CRLF must be tested before CR before LF; first match wins",
-                    repo.loc(dl))
+def detect_model(repo: Repo):
+    """How detect_line_endings decides, read from its syntax tree.  Two families are recognised:
+    'presence' - the first ending of a priority list that occurs anywhere in the text wins;
+    'count'    - the most frequent ending wins (CRLF occurrences subtracted from the CR and LF counts).
+    Anything else cannot be decided here."""
+    from ..rules import param_names, resolve_deep
+    dl = repo.func("reuse.extract.detect_line_endings")
+    text = param_names(dl)[0]
+    CRLF, CR, LF = "\r\n", "\r", "\n"
+    problems: list[tuple[str, str]] = []
+    rets = [n for n in ast.walk(dl) if isinstance(n, ast.Return) and n.value is not None]
+    default_ok = any(ast.unparse(n.value) in ("os.linesep", "linesep") for n in rets)
+    allc = [c for c in ast.walk(dl) if isinstance(c, ast.Call) and isinstance(c.func, ast.Attribute) and c.func.attr == "count"
+            and len(c.args) == 1 and isinstance(c.args[0], ast.Constant) and c.args[0].value in (CRLF, CR, LF)]
+    partial = sorted({ast.unparse(resolve_deep(dl, c.func.value)) for c in allc} - {text})
+    counts = allc
+    if partial:
+        problems.append((f"line endings are detected from {partial[0]}, not from the whole text read",
+                         "a file whose line breaks lie outside that part is given os.linesep / the wrong convention: the text is then"
+                         " not normalised and written back with another ending"))
+    if counts:
+        # ---- count family: ending -> resolved count expression
+        table: dict[str, str] = {}
+        for n in ast.walk(dl):
+            if isinstance(n, ast.Dict) and all(isinstance(k, ast.Constant) and isinstance(k.value, str) for k in n.keys):
+                for k, v in zip(n.keys, n.values):
+                    table[k.value] = ast.unparse(resolve_deep(dl, v))
+                    for pt in partial:
+                        table[k.value] = table[k.value].replace(pt + ".count(", text + ".count(")
+        if set(table) != {CRLF, CR, LF}:
+            raise AnalysisError("detect_line_endings counts occurrences but the ending -> count table was not recognised")
+        c = lambda e: f"{text}.count({e!r})"  # noqa: E731
+        want = {CRLF: {c(CRLF)}, CR: {f"{c(CR)} - {c(CRLF)}"}, LF: {f"{c(LF)} - {c(CRLF)}"}}
+        for e in (CRLF, CR, LF):
+            if table[e] not in want[e]:
+                problems.append((f"count of {e!r} is {table[e]}",
+                                 "every CRLF also contains a CR and an LF: unless the CRLF count is subtracted, a CRLF file with one stray"
+                                 " CR or LF is taken for a CR / LF file and every line ending is rewritten"))
+        sel = [c2 for c2 in ast.walk(dl) if isinstance(c2, ast.Call) and ast.unparse(c2.func) in ("max", "min", "sorted")]
+        if [ast.unparse(c2.func) for c2 in sel] != ["max"]:
+            problems.append(("the most frequent ending is not selected with max()", f"{[ast.unparse(c2) for c2 in sel]}"))
+        zero = [n for n in ast.walk(dl) if isinstance(n, ast.If) and any(isinstance(x, ast.Return) and ast.unparse(x.value) in ("os.linesep", "linesep")
+                                                                          for st in n.body for x in ast.walk(st))]
+        if not zero and not default_ok:
+            problems.append(("no line ending at all must give os.linesep", ""))
+        return "count", problems, {"table": table, "default_os_linesep": default_ok}
+    # ---- presence family: priority list
+    order: list[str] = []
+    for n in ast.walk(dl):
+        if isinstance(n, ast.For):
+            it = resolve_deep(dl, n.iter)
+            if isinstance(it, (ast.List, ast.Tuple)) and all(isinstance(e, ast.Constant) for e in it.elts):
+                order = [e.value for e in it.elts]
+    if not order:
+        for n in ast.walk(dl):
+            if isinstance(n, ast.If) and isinstance(n.test, ast.Compare) and isinstance(n.test.ops[0], ast.In) \
+                    and isinstance(n.test.left, ast.Constant) and ast.unparse(n.test.comparators[0]) == text:
+                order.append(n.test.left.value)
+    if sorted(order) != sorted([CRLF, CR, LF]):
+        raise AnalysisError("detect_line_endings: neither the presence nor the count family was recognised")
+    hay = sorted({ast.unparse(resolve_deep(dl, n.comparators[0])) for n in ast.walk(dl) if isinstance(n, ast.Compare) and len(n.ops) == 1
+                  and isinstance(n.ops[0], ast.In)} - {text})
+    if hay:
+        problems.append((f"line endings are detected from {hay[0]}, not from the whole text read",
+                         "a file whose line breaks lie outside that part is given os.linesep / the wrong convention"))
+    if order[0] != CRLF:
+        problems.append(("detection order", "CRLF must be tested before CR and LF (it contains both); first match wins"))
+    if not default_ok:
+        problems.append(("no line ending at all must give os.linesep", ""))
+    first = CR if order.index(CR) < order.index(LF) else LF
+    other = LF if first == CR else CR
+    problems.append((f"a text that contains both {CR!r} and {LF!r} is declared {first!r} by mere presence",
+                     f"`a = 1\\nb = \"x\\ry\"\\nc = 3\\n` (an LF file with one stray CR in a string literal): detection answers {first!r}, every"
+                     f" {first!r} is normalised and the file is written back with {first!r} endings throughout - presence cannot tell the"
+                     f" convention of the file from a stray {other!r}/{first!r}; the endings have to be counted"))
+    return "presence", problems, {"priority": order, "default_os_linesep": default_ok}
 
 
 def rule_shebang(ck: Check, repo: Repo, rid: str = "R3") -> None:
